@@ -117,8 +117,8 @@ Theorem remove_rows_ok : forall m n indptr indices data mask,
   wf_csr m indptr indices data ->
   remove_rows indptr indices data (m, n) mask =
     (psums 0 (map (rlen indptr) (kept_rows mask m)),
-     concat (map (seg indptr indices) (kept_rows mask m)),
-     concat (map (seg indptr data) (kept_rows mask m)),
+     concat (map (rseg indptr indices) (kept_rows mask m)),
+     concat (map (rseg indptr data) (kept_rows mask m)),
      (length (kept_rows mask m), n)).
 Proof. exact remove_rows_ok_lemma. Qed.
 Print Assumptions remove_rows_ok.
@@ -133,3 +133,36 @@ Example ex_remove_rows :
   remove_rows [0;2;2;3;5] [0;2;1;0;1] [5;7;2;4;9]%Z (4, 3) [false;true;true;false] =
   ([0;0;1], [1], [2]%Z, (2, 3)).
 Proof. vm_compute. reflexivity. Qed.
+
+(* From the arrays to the content: for EVERY well-formed compressed matrix r (Model/Sparse.v wf_cs:
+   unsorted indices and explicitly stored zeros allowed) and EVERY mask (read with default false, cut
+   at the number of rows), the arrays the generated kernel leaves behind form a well-formed compressed
+   matrix whose dense denotation is exactly the row selection of r's -- the selection that the
+   content-level filter_mask performs on the matrix of a table. *)
+From BiomV Require Import Model.Sparse Proofs.SparseProofs.
+Theorem remove_rows_denotes : forall r mask, wf_cs r ->
+  let '(ip, ind, dat, (m', n)) := remove_rows (indptr r) (indices r) (data r) (major r, minor r) mask in
+  wf_cs (mkCS m' n ip ind dat) /\ dense_of (mkCS m' n ip ind dat) = sel_rows mask (dense_of r).
+Proof. exact remove_rows_denotes_lemma. Qed.
+Print Assumptions remove_rows_denotes.
+
+(* the compiled compaction refines the content-level filter: if r denotes the matrix of t, the
+   kernel's result denotes the matrix of filter_mask mask Obs t *)
+Theorem remove_rows_refines_filter_mask : forall r mask t, wf_cs r -> dense_of r = mat t ->
+  let '(ip, ind, dat, (m', n)) := remove_rows (indptr r) (indices r) (data r) (major r, minor r) mask in
+  dense_of (mkCS m' n ip ind dat) = mat (filter_mask mask Obs t).
+Proof.
+  intros r mask t W E. pose proof (remove_rows_denotes_lemma r mask W) as H.
+  destruct (remove_rows (indptr r) (indices r) (data r) (major r, minor r) mask) as [[[ip ind] dat] [m' n]].
+  destruct H as [_ H]. rewrite H, E. reflexivity.
+Qed.
+Print Assumptions remove_rows_refines_filter_mask.
+
+(* non-vacuity: unsorted indices and a stored zero; rows 0 and 2 are kept *)
+Example ex_cs : cs := mkCS 3 3 [0;2;3;5] [2;0;1;1;0] [7;5;0;4;9]%Z.
+Example ex_cs_wf : wf_cs ex_cs. Proof. apply wf_csb_wf_cs. vm_compute. reflexivity. Qed.
+Example ex_cs_denotes :
+  dense_of ex_cs = [[5;0;7];[0;0;0];[9;4;0]]%Z /\
+  (let '(ip, ind, dat, (m', n)) := remove_rows (indptr ex_cs) (indices ex_cs) (data ex_cs) (3, 3) [true;false;true] in
+   dense_of (mkCS m' n ip ind dat)) = [[5;0;7];[9;4;0]]%Z.
+Proof. vm_compute. split; reflexivity. Qed.
